@@ -31,7 +31,13 @@ func GenNested(r *core.Rand, format string, ngroups, maxRecs int, pretty bool) *
 	id := 0
 	if format == "xml" {
 		n.Target = "/root/grp/rec"
-		sb.WriteString("<root>" + nl)
+		// a third of the documents carry namespace-prefixed twins of the fields (same local names): a bare name must not select them
+		twins := r.Chance(1, 3)
+		if twins {
+			sb.WriteString(`<root xmlns:v="urn:v">` + nl)
+		} else {
+			sb.WriteString("<root>" + nl)
+		}
 		for g := 0; g < ngroups; g++ {
 			fmt.Fprintf(&sb, `%s<grp gid="g%d">%s%s<note>note %d %s</note>%s`, ind, g, nl, ind+ind, g, nVal(r), nl)
 			for i := 0; i < r.Range(1, maxRecs); i++ {
@@ -39,6 +45,9 @@ func GenNested(r *core.Rand, format string, ngroups, maxRecs int, pretty bool) *
 				n.NRecs++
 				sb.WriteString(ind + ind)
 				fmt.Fprintf(&sb, `<rec id="r%d"><id>r%d</id><n>%d</n><f1>%s</f1>`, id, id, r.Range(0, 50), escText(nil, nVal(r), false, 0))
+				if twins {
+					fmt.Fprintf(&sb, `<v:id>twin%d</v:id><v:n>x</v:n><v:f1 v:id="va">t</v:f1><v:a>ta</v:a>`, id)
+				}
 				if r.Bool() {
 					fmt.Fprintf(&sb, `<a>outer%d<a>inner%d</a></a>`, id, id)
 				} else {
